@@ -2,6 +2,7 @@ import ProbLogModel.SemFO
 import ProbLogProofs.Lemmas.SemFOGround
 import ProbLogProofs.Lemmas.SemFORename
 import ProbLogProofs.Lemmas.SemFOPerm
+import ProbLogProofs.Lemmas.SemFOVars
 import ProbLogProofs.Properties.C07
 /-!
 # C07 (first-order level) — the specification does not depend on the order of the statements
@@ -14,6 +15,7 @@ unchanged.
 -/
 namespace ProbLogProofs.C07FO
 open ProbLogModel ProbLogModel.SemFO ProbLogProofs.SemFOGround ProbLogProofs.SemFORename ProbLogProofs.SemFOPerm
+open ProbLogProofs.SemFOVars
 
 /-- `Sem.run` does not depend on the names of the choices: an injective renaming `σ` of the choice ids (in the rules
     and in the groups) that respects the bound `nchoices` leaves every component of the result unchanged. -/
@@ -58,6 +60,29 @@ theorem C07FO_stmt_perm_run (P : FOProgram) {stmts' : List Stmt} (h : P.stmts.Pe
   rw [e, C07.C07_perm_groups_run _ hg, C07.C07_perm_clauses_run _ hr]
   exact C07FO_run_rename_choices hinj (ground P) hb _ _
 
+/-- **Renaming the variables of one statement** by an injective map leaves the Herbrand instantiation unchanged
+    (literally: same rules in the same order, same groups, same choice ids), hence also the specification value. -/
+theorem C07FO_var_rename (P : FOProgram) {l₁ l₂ : List Stmt} {s : Stmt} (hs : P.stmts = l₁ ++ s :: l₂)
+    {f : String → String} (hf : Function.Injective f) :
+    ground { P with stmts := l₁ ++ renStmt f s :: l₂ } = ground P ∧
+    SemFO.run { P with stmts := l₁ ++ renStmt f s :: l₂ } = SemFO.run P := by
+  have hg : groundStmts P.consts 0 (l₁ ++ renStmt f s :: l₂) = groundStmts P.consts 0 P.stmts := by
+    rw [hs]
+    exact groundStmts_congr_at P.consts l₁ l₂ s (renStmt f s) (fun c0 => groundStmt_renStmt hf _ c0 s)
+      (nchoices_renStmt hf _ s) 0
+  have hn : totalChoices P.consts (l₁ ++ renStmt f s :: l₂) = totalChoices P.consts P.stmts := by
+    rw [hs, totalChoices_append, totalChoices_append, totalChoices_cons, totalChoices_cons, nchoices_renStmt hf]
+  have e : ground { P with stmts := l₁ ++ renStmt f s :: l₂ } = ground P := by
+    show (⟨(herbrand P).length, totalChoices P.consts (l₁ ++ renStmt f s :: l₂),
+      (groundStmts P.consts 0 (l₁ ++ renStmt f s :: l₂)).1.map (SRule.toRule (atomId P)),
+      (groundStmts P.consts 0 (l₁ ++ renStmt f s :: l₂)).2⟩ : Sem.Prog) = _
+    rw [hg, hn]
+    rfl
+  refine ⟨e, ?_⟩
+  unfold SemFO.run
+  rw [e]
+  rfl
+
 /-! ### non-vacuity -/
 
 def exP : FOProgram :=
@@ -85,5 +110,17 @@ example : (SemFO.run exP).num = [3/20, 0, 3/10] ∧ (SemFO.run { exP with stmts 
 -- a renaming as in `C07FO_run_rename_choices`
 example : Function.Injective (swapBlocks 0 1 2) ∧ ∀ c, swapBlocks 0 1 2 c < 3 ↔ c < 3 :=
   ⟨swapBlocks_inj 0 1 2, fun c => by unfold swapBlocks; split_ifs <;> omega⟩
+
+/-- exchange the variable names `X` and `Y` -/
+def swapXY (v : String) : String := if v = "X" then "Y" else if v = "Y" then "X" else v
+
+theorem swapXY_inj : Function.Injective swapXY := by
+  intro a b h
+  unfold swapXY at h
+  split_ifs at h <;> simp_all
+
+example : exP.stmts = [exP.stmts[0]] ++ exP.stmts[1] :: [exP.stmts[2]] := rfl
+example : renStmt swapXY (.prule (1/2) ⟨"p", [.var "X"]⟩ [.pos ⟨"f", [.var "X"]⟩]) =
+    .prule (1/2) ⟨"p", [.var "Y"]⟩ [.pos ⟨"f", [.var "Y"]⟩] := rfl
 
 end ProbLogProofs.C07FO
